@@ -25,7 +25,8 @@ PathSrc(segs) ==
   segs[1].v \o JoinStr([i \in 1..(Len(segs) - 1) |->
       LET s == segs[i + 1] IN
       CASE s.t = "k" -> IF "br" \in DOMAIN s /\ s.br THEN "['" \o s.v \o "']" ELSE "." \o s.v
-        [] s.t = "i" -> "[" \o ToString(s.i) \o "]"
+        [] s.t = "i" -> IF "sh" \in DOMAIN s THEN "." \o ToString(s.i)      \* shorthand: foo.0 (Environment.shorthand_indexes)
+                        ELSE "[" \o ToString(s.i) \o "]"
         [] s.t = "p" -> "[" \o PathSrc(s.p) \o "]"], "")
 
 FilterSrc(f) ==
